@@ -257,23 +257,20 @@ func splitNode[T any](n *node[T], pos int) (*node[T], error) {
 	if p == nil {
 		panic("节点必须要有一个有效的父节点，才能进行拆分")
 	}
-	p.children = removeNodes(p.children, n.segment.Value) // 先从父节点中删除老的 n
-
 	segs, err := n.segment.Split(n.root.interceptors, pos)
 	if err != nil {
 		return nil, err
 	}
-	ret := p.newChild(segs[0])
-	c := ret.newChild(segs[1])
-	c.handlers = n.handlers
-	c.methodIndex = n.methodIndex
-	c.children = n.children
-	c.indexes = n.indexes
-	for _, item := range c.children {
-		item.parent = c
-	}
+	p.children = removeNodes(p.children, n.segment.Value) // 先从父节点中删除老的 n
 
-	// ret 和 c 的内容在 newChild 之后被修改，所以需要对其子元素重新排序。
+	// n 本身作为后半段保留在树中：已经生成的 OPTIONS 和 405 处理函数引用的是 n，
+	// 换成新的对象会让它们的 Allow 报头停留在拆分时的状态。
+	ret := p.newChild(segs[0])
+	n.segment = segs[1]
+	n.parent = ret
+	ret.children = append(ret.children, n)
+
+	// ret 的内容在 newChild 之后被修改，所以需要对其子元素重新排序。
 	ret.sort()
 	p.sort()
 
